@@ -6,6 +6,7 @@ the loop needs at most one pass per class) thereby speak about this code — on 
 parents and exclusions, for every value the fields hold.
 -/
 import PamsLemmas.SrcConfig
+import Batteries.Tactic.Alias
 
 open Pams Pams.Py Pams.Config Pams.Src
 
@@ -33,5 +34,14 @@ theorem source_nearest_ancestor_example (val : Nat → Int) :
   simp only [exclVal, nameStr] at h
   rw [h]
   simp [cfgObs, jsonExtends, extendsLoop, lookup, lookupObj, erase, merge, wABC, tgt, keyStr, nameStr]
+
+/-- **`JsonRandom.random` on the current source**: a pair and `{"uniform": [a, b]}` give `u·(b − a) + a` with
+exactly one `random()` draw (the model's `uniform`, whose range theorem is `C18.uniform_range`),
+`{"const": [a]}` and a bare number give the number with no draw, `{"normal": [a, b]}` one `gauss(a, b)`,
+`{"expon": [a]}` `a·(−log u)` with one draw — for all `a`, `b` and draws -/
+alias source_json_random := json_random_src
+
+/-- ill-formed specifications are refused before any draw -/
+alias source_json_random_refusals := json_random_src_refusals
 
 end Pams.C18
